@@ -230,6 +230,9 @@ class Sim(object):
         self.stall_plan = {}     # role -> [(thread-local step, duration)]
         self.stalls_fired = 0
         self.in_event = False
+        self._untraced = 0
+        self.func_stalls = {}    # qualname -> [[k-th call, steps after entry, duration]]
+        self.func_calls = {}
         self.step_triggers = []  # [thread role substring, thread-local step, callback] fired once (event context rules apply)
         self._gap_is_skip = True
         self._line_countdown = self._draw_line_gap()
@@ -617,13 +620,45 @@ class Sim(object):
         self._code_flags[code] = flag
         return flag
 
+    def untraced(self):
+        """Context manager: bromelia code called inside is not metered and not
+        pre-empted (for harness-side use of library helpers, e.g. parsing an
+        arriving message 'on the wire')."""
+        sim = self
+
+        class _U(object):
+            def __enter__(self_):
+                sim._untraced += 1
+
+            def __exit__(self_, *a):
+                sim._untraced -= 1
+        return _U()
+
     def _gtrace(self, frame, event, arg):
+        if self._untraced:
+            return None
         code = frame.f_code
         flag = self._code_flags.get(code)
         if flag is None:
             flag = self._classify(code)
         if flag == 0:
             return None
+        if self.func_stalls:
+            # function-entry anchored stalled-thread fault: the k-th call of a named
+            # function is descheduled j steps after entry
+            qn = getattr(code, "co_qualname", code.co_name)
+            plan = self.func_stalls.get(qn)
+            if plan:
+                n = self.func_calls.get(qn, 0) + 1
+                self.func_calls[qn] = n
+                t = self.cur
+                for ent in list(plan):
+                    if ent[0] == n:
+                        plan.remove(ent)
+                        sp = [p for p in (t.stall_plan or []) if p[0] < (1 << 59)]
+                        sp.append((t.steps + ent[1], ent[2]))
+                        t.stall_plan = sorted(sp)
+                        self.probe("func_stall:" + qn)
         if flag == 2:
             frame.f_trace_opcodes = True
         return self._ltrace
